@@ -94,13 +94,16 @@ class Arc2D(object):
         """
         for pt in (p1, m, p2):
             assert isinstance(pt, Point2D), "Expected Point2D. Got {}.".format(type(pt))
-        e1 = (p1.x ** 2 + p1.y ** 2)
-        e2 = (m.x ** 2 + m.y ** 2)
-        e3 = (p2.x ** 2 + p2.y ** 2)
-        den = 2 * (p1.x * (m.y - p2.y) - p1.y * (m.x - p2.x) + m.x * p2.y - p2.x * m.y)
+        # work relative to the start point: with absolute coordinates the squared
+        # terms cancel catastrophically for a small arc far away from the origin
+        ax, ay = m.x - p1.x, m.y - p1.y
+        bx, by = p2.x - p1.x, p2.y - p1.y
+        e2 = (ax ** 2 + ay ** 2)
+        e3 = (bx ** 2 + by ** 2)
+        den = 2 * (ax * by - ay * bx)
         try:
-            x = -(e1 * (p2.y - m.y) + e2 * (p1.y - p2.y) + e3 * (m.y - p1.y)) / den
-            y = -(e1 * (m.x - p2.x) + e2 * (p2.x - p1.x) + e3 * (p1.x - m.x)) / den
+            x = p1.x + (e2 * by - e3 * ay) / den
+            y = p1.y + (e3 * ax - e2 * bx) / den
         except ZeroDivisionError:
             raise ValueError('Input points {}, {}, {} are colinear and '
                              'cannot define an arc.'.format(p1, m, p2))
